@@ -2,8 +2,10 @@
 """Markdown table of the seeded changes and which checks catch them (from seeded/*/meta.json)."""
 import json, glob, os
 ROOT = os.path.dirname(os.path.dirname(os.path.abspath(__file__)))
-print("| seed | breaks | change | needs | caught by (quick unless noted) |")
-print("|------|--------|--------|-------|-------------------------------|")
+out = []
+print_ = out.append
+print_("| seed | breaks | change | needs | caught by (quick unless noted) |")
+print_("|------|--------|--------|-------|-------------------------------|")
 for d in sorted(glob.glob(os.path.join(ROOT, "seeded", "C*"))):
     m = json.load(open(os.path.join(d, "meta.json")))
     runs = m.get("check_runs", {})
@@ -12,5 +14,15 @@ for d in sorted(glob.glob(os.path.join(ROOT, "seeded", "C*"))):
     txt = ", ".join(caught) if caught else "**not caught**"
     if caught and missed:
         txt += " (not by %s)" % ", ".join(missed)
-    print("| %s | %s | %s | %s | %s |" % (os.path.basename(d), m.get("property"), (m.get("title") or "").replace("|", "/")[:110],
+    print_("| %s | %s | %s | %s | %s |" % (os.path.basename(d), m.get("property"), (m.get("title") or "").replace("|", "/")[:110],
                                        (m.get("needs") or "").replace("|", "/").replace("\n", " ")[:140], txt))
+
+p = os.path.join(ROOT, "DESIGN.md")
+t = open(p).read()
+b, e = "<!-- seed-table:begin -->", "<!-- seed-table:end -->"
+if b in t and e in t:
+    t = t[:t.index(b) + len(b)] + "\n" + "\n".join(out) + "\n" + t[t.index(e):]
+    open(p, "w").write(t)
+    print("%d seeds written into DESIGN.md" % (len(out) - 2))
+else:
+    print("\n".join(out))
